@@ -70,6 +70,11 @@ func NewScanner(proto string, opts ...ScannerOption) *Scanner {
 	ec := &elasticClient{
 		client: &http.Client{
 			Transport: tr,
+			// a scanned server must not be able to send the scanner to another host:
+			// a redirect is answered like any other response, it is never followed
+			CheckRedirect: func(*http.Request, []*http.Request) error {
+				return http.ErrUseLastResponse
+			},
 		},
 		proto:       proto,
 		dataTimeout: defaultDataTimeout,
